@@ -79,7 +79,7 @@ func propC07(c *Ctx) {
 			continue
 		}
 		seen[fn] = true
-		if r := fn.Signature.Recv(); r != nil && isNamed(r.Type(), modPath, "vmPool") {
+		if l.poolDomain()[fn] {
 			continue // private Bytecode of pooled child VMs, checked by C14
 		}
 		eachInstr(fn, func(ins ssa.Instruction) {
@@ -179,7 +179,7 @@ func ruleRunReset(c *Ctx, rr string, vf *vmFacts) {
 	M := map[string]bool{}
 	writers := map[string][]string{}
 	for _, fn := range vf.reachFns {
-		if r := fn.Signature.Recv(); r != nil && isNamed(r.Type(), modPath, "vmPool") {
+		if l.poolDomain()[fn] {
 			continue // the pool configures child VMs (another VM's fields): C14's subject
 		}
 		d, _ := vf.storedVMFields(fn)
